@@ -19,12 +19,12 @@ CONSTANT Mutant
 
 Wn(c, g) == [c |-> c, g |-> g]
 NoDatum == [ty |-> "b", v |-> <<>>]
-EmptyObs == [call |-> [done |-> FALSE, w |-> <<>>, entered |-> FALSE, exc |-> "", envdiff |-> <<>>],
+EmptyObs == [call |-> [q |-> 0, done |-> FALSE, w |-> <<>>, entered |-> FALSE, exc |-> "", envdiff |-> <<>>, envadded |-> <<>>],
              acts |-> <<>>,
-             ret |-> [w |-> <<>>, reached |-> FALSE, exc |-> "", appexc |-> ""],
-             nexts |-> <<>>, closes |-> <<>>, gc |-> [w |-> <<>>, ran |-> FALSE], stray |-> <<>>]
+             ret |-> [q |-> 0, w |-> <<>>, reached |-> FALSE, exc |-> "", appexc |-> ""],
+             nexts |-> <<>>, closes |-> <<>>, gc |-> [q |-> 0, w |-> <<>>, ran |-> FALSE], stray |-> <<>>]
 S0 == [phase |-> "entry", pc |-> 1, hset |-> <<>>, sent |-> 0, closed |-> FALSE, sstarted |-> FALSE, scommitted |-> FALSE,
-       appdead |-> FALSE, innext |-> FALSE, nx |-> 0, lastr |-> "", pend |-> "", afterdone |-> FALSE, obs |-> EmptyObs]
+       appdead |-> FALSE, innext |-> FALSE, nx |-> 0, tick |-> 1, lastr |-> "", pend |-> "", afterdone |-> FALSE, obs |-> EmptyObs]
 
 \* ------------------------------------------------------------------ check_environ + wrapping
 RequiredSeq == <<"REQUEST_METHOD", "SERVER_NAME", "SERVER_PORT", "wsgi.version", "wsgi.input", "wsgi.errors",
@@ -38,12 +38,12 @@ Entry(case, s) ==
       w3 == IF env.ver # <<1, 0>> THEN <<Wn(WS, "EnvVersion")>> ELSE <<>>
       w4 == IF "SCRIPT_NAME" \notin miss /\ env.script # <<>> /\ env.script[1] # 47 THEN <<Wn(WS, "EnvScript")>> ELSE <<>>
       w5 == IF "PATH_INFO" \notin miss /\ env.path # <<>> /\ env.path[1] # 47 THEN <<Wn(WS, "EnvPath")>> ELSE <<>>
-      dead(w) == [s EXCEPT !.phase = "done", !.obs.call = [done |-> TRUE, w |-> w, entered |-> FALSE, exc |-> "KeyError", envdiff |-> <<>>]]
+      dead(w) == [s EXCEPT !.phase = "done", !.obs.call = [q |-> 0, done |-> TRUE, w |-> w, entered |-> FALSE, exc |-> "KeyError", envdiff |-> <<>>, envadded |-> <<>>]]
   IN IF "wsgi.version" \in miss THEN dead(w1 \o w2)
      ELSE IF "wsgi.input" \in miss \/ "wsgi.errors" \in miss THEN dead(w1 \o w2 \o w3 \o w4 \o w5)
      ELSE [s EXCEPT !.phase = "call",
-                    !.obs.call = [done |-> TRUE, w |-> w1 \o w2 \o w3 \o w4 \o w5, entered |-> TRUE, exc |-> "",
-                                  envdiff |-> <<"wsgi.errors", "wsgi.file_wrapper", "wsgi.input">>]]
+                    !.obs.call = [q |-> 0, done |-> TRUE, w |-> w1 \o w2 \o w3 \o w4 \o w5, entered |-> TRUE, exc |-> "",
+                                  envdiff |-> <<"wsgi.errors", "wsgi.input">>, envadded |-> <<"wsgi.file_wrapper">>]]
 
 \* ------------------------------------------------------------------ check_start_response / check_headers
 IsSpace(c) == IsWs(c) \/ c \in {133, 160, 5760, 8232, 8233, 8239, 8287, 12288} \/ (c >= 8192 /\ c <= 8202)
@@ -198,14 +198,14 @@ CloseWarns(case, s) ==
 
 \* ------------------------------------------------------------------ the request as a sequence of steps
 Script(case) == case.script
-AppendAct(s, o) == Append(s.obs.acts, [w |-> o.w, exc |-> o.exc, fwd |-> o.fwd, res |-> o.res])
+AppendAct(s, o) == Append(s.obs.acts, [q |-> s.tick, w |-> o.w, exc |-> o.exc, fwd |-> o.fwd, res |-> o.res])
 Carry(s, o) == [s EXCEPT !.hset = o.hset, !.sent = o.sent, !.sstarted = o.sstarted, !.scommitted = o.scommitted,
-                         !.obs.acts = AppendAct(s, o), !.pc = s.pc + 1]
+                         !.obs.acts = AppendAct(s, o), !.pc = s.pc + 1, !.tick = s.tick + 1]
 
 BeginNext(s) ==
-  LET e == [w |-> IF s.closed THEN <<Wn(WS, "IterAfterClose")>> ELSE <<>>, ac |-> Len(s.obs.closes) > 0,
+  LET e == [q |-> s.tick, w |-> IF s.closed THEN <<Wn(WS, "IterAfterClose")>> ELSE <<>>, ac |-> Len(s.obs.closes) > 0,
             r |-> "", cls |-> "", item |-> NoDatum, appr |-> "", appcls |-> "", appitem |-> NoDatum, act |-> 0]
-  IN [s EXCEPT !.innext = TRUE, !.nx = s.nx + 1, !.obs.nexts = Append(s.obs.nexts, e)]
+  IN [s EXCEPT !.innext = TRUE, !.nx = s.nx + 1, !.tick = s.tick + 1, !.obs.nexts = Append(s.obs.nexts, e)]
 EndNext(s, r, cls, item, act) ==
   LET k == Len(s.obs.nexts)
       it2 == IF Mutant = "alter_item" /\ r = "item" /\ item.v # <<>> THEN [item EXCEPT !.v = Tail(item.v)] ELSE item
@@ -232,16 +232,17 @@ Step(case, s) ==
     [] s.phase = "ret" ->
          LET w == IF s.pend = "" /\ case.ret = "str" /\ Mutant # "no_str_warning" THEN <<Wn(WS, "StrReturned")>> ELSE <<>> IN
          [s EXCEPT !.phase = IF s.pend = "" THEN "iter" ELSE "done",
-                   !.obs.ret = [w |-> w, reached |-> TRUE, exc |-> s.pend, appexc |-> s.pend]]
+                   !.tick = s.tick + 1,
+                   !.obs.ret = [q |-> s.tick, w |-> w, reached |-> TRUE, exc |-> s.pend, appexc |-> s.pend]]
     [] s.phase = "iter" ->
          IF s.innext THEN InNext(case, s)
          ELSE IF s.nx < case.srv.take /\ s.lastr \notin {"stop", "exc"} THEN BeginNext(s)
          ELSE [s EXCEPT !.phase = "close"]
     [] s.phase = "close" ->
          IF Len(s.obs.closes) < case.srv.closes THEN
-              LET e == [w |-> CloseWarns(case, s), exc |-> "", na |-> Len(s.obs.acts), nn |-> Len(s.obs.nexts),
+              LET e == [q |-> s.tick, w |-> CloseWarns(case, s), exc |-> "", na |-> Len(s.obs.acts), nn |-> Len(s.obs.nexts),
                         appcloses |-> IF case.ret = "gen" /\ Mutant # "swallow_close" THEN 1 ELSE 0]
-              IN [s EXCEPT !.closed = TRUE, !.obs.closes = Append(s.obs.closes, e)]
+              IN [s EXCEPT !.closed = TRUE, !.tick = s.tick + 1, !.obs.closes = Append(s.obs.closes, e)]
          ELSE [s EXCEPT !.phase = "after"]
     [] s.phase = "after" ->
          IF s.innext THEN InNext(case, s)
@@ -249,7 +250,7 @@ Step(case, s) ==
          ELSE [s EXCEPT !.phase = "gc"]
     [] s.phase = "gc" ->
          [s EXCEPT !.phase = "done",
-                   !.obs.gc = [w |-> IF ~s.closed /\ Mutant # "no_gc_warning" THEN <<Wn(WS, "Unclosed")>> ELSE <<>>, ran |-> TRUE]]
+                   !.obs.gc = [q |-> s.tick, w |-> IF ~s.closed /\ Mutant # "no_gc_warning" THEN <<Wn(WS, "Unclosed")>> ELSE <<>>, ran |-> TRUE]]
     [] OTHER -> s
 
 RECURSIVE RunFrom(_, _, _)
